@@ -105,6 +105,13 @@ CHECKS.update({
                     "equal the previous or the new checkpoint exactly (SQLite exception: must still load). Rediscovered and fixed the "
                     "SQLite DELETE auto-commit and the JSON multi-file hybrid.",
             "note": "statement-level death + byte truncation; no model of reordered or torn writes below the file API."},
+    "C11": {"category": "fault_enumeration", "technique": "fault injection enumerated completely per generated scenario: a marker exception at every invocation index of model, loss and samplers; PBT draws the scenarios; differential against the fault-free twin",
+            "text": "For each drawn configuration (round-robin and RL, with/without saving folder, 1-6 batches) every single invocation "
+                    "of the model, the loss and each sampler is made to raise in turn; calibrate() must propagate that exception, the "
+                    "history must be the twin's completed-batch prefix, no non-daemon thread may survive (interpreter-level liveness, "
+                    "hang detection), and a follow-up calibrate(1) must work. Rediscovered and fixed the missing try/finally around the "
+                    "scheduler session and the particle-swarm crash after a failed first batch.",
+            "note": "n_jobs=1; one fault per run; a hang counts only when a thread started by the call is demonstrably alive."},
 })
 NOT_APPLICABLE = {p: "check not built yet in this session (design in DESIGN.md section 3); will be claimed once its harness exists"
                   for p in ALL if p not in CHECKS}
